@@ -194,6 +194,28 @@ fn gen_trace_in(r: &mut Rng, kind: PoolKind, n: usize, segmented_tls: bool, prob
             conn::build(r, ck, *c, *s, &o)
         })
         .collect();
+    // Header fields that are not part of a connection's identity may change from packet to packet
+    // (IPv6 flow label re-rolled after a retransmission timeout, IP id, TTL after a route change, ToS):
+    // worker assignment must not follow them
+    let mut conns = conns;
+    for c in conns.iter_mut() {
+        if r.chance(1, 2) {
+            for st in c.steps.iter_mut() {
+                if r.chance(1, 2) {
+                    st.seg.flow_label = r.u32() & 0xfffff;
+                }
+                if r.chance(1, 3) {
+                    st.seg.ip_id = r.u16();
+                }
+                if r.chance(1, 6) {
+                    st.seg.ttl = st.seg.ttl.wrapping_sub(r.below(3) as u8);
+                }
+                if r.chance(1, 6) {
+                    st.seg.tos = r.u8() & 0xfc;
+                }
+            }
+        }
+    }
     let lens: Vec<usize> = conns.iter().map(|c| c.steps.len()).collect();
     let mode = *r.pick(&[MergeMode::Uniform, MergeMode::RoundRobin, MergeMode::Bursts]);
     let order = conn::merge_order(r, &lens, mode);
